@@ -194,6 +194,7 @@ class ListGen(object):
         n = max(1, n)
         fields = [{"name": "f0", "kind": "scalar", "w": w, "sg": False, "rand": True},
                   {"name": "l0", "kind": "list", "elem": {"kind": "scalar", "w": w, "sg": False}, "rand": True, "randsz": True, "size": 0}]
+        self.scalars, self.lists, self.indexed, self.dyn_block = [fields[0]], [fields[1]], set(), None
         items = [["listref", ["l0"]]] + ([["f", ["f0"]]] if with_scalar else [])
         if rnd.random() < 0.5:
             items.reverse()
